@@ -289,6 +289,7 @@ def weave(e_src, e0_src, p_src):
         p2e0 = {j: i0 for i0, j in enumerate(m0)}
         next_e = 0       # next E token not yet emitted
         del_pos = None   # output index where the first deleted code token since the last kept code token was
+        pending_del = False
         for j, t in enumerate(p_toks):
             if not is_code[j]:
                 out.append((t.t, 'annot', p_sep(j)))
@@ -299,6 +300,7 @@ def weave(e_src, e0_src, p_src):
                 w.removed_tokens += 1
                 if del_pos is None:
                     del_pos = len(out)
+                pending_del = True
                 continue
             # emit any new E tokens before ie: a replacement takes the place of the tokens it replaces; a pure
             # insertion follows the previous code token (before the annotations that precede the next code token)
@@ -316,7 +318,8 @@ def weave(e_src, e0_src, p_src):
                     w.new_tokens += 1
                 out[k:k] = ins
                 inserted = bool(ins) and k == len(out) - len(ins)
-            out.append((t.t, 'code', (e_sep(ie) or ' ') if inserted else p_sep(j)))
+            out.append((t.t, 'del' if pending_del else 'code', (e_sep(ie) or ' ') if inserted else p_sep(j)))
+            pending_del = False
             next_e = ie + 1
             del_pos = None
         if next_e < len(e_toks):
